@@ -73,12 +73,21 @@ def destructure_family(tier):
         "tuple": ("", "(a, b)", "(u32, String)", "(1, String::new())"),
         "array": ("", "[a, b]", "[String; 2]", "[String::new(), String::new()]"),
     }
+    # generic structs reach the macro's "type form" arms (`$struct_path:path`), which have their own is-not-a-reference check
+    shapes["braced/type-form"] = ("pub struct S<T> { pub a: T, pub b: String }\n", "S<u32> {a, b}", "S<u32>", "")
+    shapes["braced/turbofish"] = ("pub struct S<T> { pub a: T, pub b: String }\n", "S::<u32> {a, b}", "S<u32>", "")
+    shapes["braced/type-form-comma"] = ("pub struct S<T> { pub a: T, pub b: String }\n", "S<u32>, {a, b}", "S<u32>", "")
+    shapes["tuple-struct/type-form"] = ("pub struct S<T>(pub T, pub String);\n", "S<u32>, (a, b)", "S<u32>", "")
+    shapes["tuple-struct/turbofish"] = ("pub struct S<T>(pub T, pub String);\n", "S::<u32>, (a, b)", "S<u32>", "")
+    shapes["tuple-struct/self-path"] = ("pub struct S(pub u32, pub String);\n", "self::S (a, b)", "S", "")
     for shape, (defs, pat, ty, val) in shapes.items():
         for annot in (False, True):
-            rej = defs + "pub fn f(v: &%s) { konst::destructure!{%s%s = v} }\n" % (ty, pat, (": &" + ty) if annot else "")
-            acc = defs + "pub fn f(v: %s) { konst::destructure!{%s%s = v} }\n" % (ty, pat, (": " + ty) if annot else "")
-            out.append(Prog("reference", "%s/%s" % (shape, "annotated" if annot else "plain"), rej, acc,
-                            [dict(code="E0308"), dict(code="E0529"), dict(code="E0614"), dict(msg="mismatched types")]))
+            for ref in ("&", "&mut "):
+                rej = defs + "pub fn f(v: %s%s) { konst::destructure!{%s%s = v} }\n" % (ref, ty, pat, (": " + ref + ty) if annot else "")
+                acc = defs + "pub fn f(v: %s) { konst::destructure!{%s%s = v} }\n" % (ty, pat, (": " + ty) if annot else "")
+                out.append(Prog("reference", "%s/%s%s" % (shape, "annotated" if annot else "plain", "" if ref == "&" else "/mut"), rej, acc,
+                                [dict(code="E0308"), dict(code="E0529"), dict(code="E0614"), dict(code="E0507"), dict(code="E0596"),
+                                 dict(msg="mismatched types")]))
     # C. wrong field / element count
     counts = [
         ("braced", "pub struct S { pub a: u32, pub b: String }\n", "S", "S {a}", "S {a, b}", [dict(msg="pattern requires `..` due to inaccessible fields"), dict(code="E0027"), dict(msg="does not mention field")]),
@@ -248,5 +257,5 @@ def run(ctx):
     ctx.extra["evaluations"] = len(progs)
     ctx.extra["programs"] = len(progs)
     ctx.extra["guards"] = sorted({p.guard for p in fam})
-    ctx.floor("REJ", 60)
+    ctx.floor("REJ", 100)
     ctx.floor("INV", 25)
